@@ -9,6 +9,35 @@ BASELINE = ("cd /repo && env -u GSCRIB_VERIF /venv/bin/python -m pytest -ra -q -
 
 # id -> (technique, level text, level note, design ref)
 CLAIMED = {
+    "C02": (
+        "Lean 4 theorems over the hand-written Builder model (case analysis per command, induction over histories, an independent "
+        "2-flag controller reading only emitted codes) + differential correspondence against the real GCodeBuilder",
+        "Proof: C02_step_safe/C02_run_safe show for every builder state and every call history that each emitted statement is safe "
+        "at the moment it is executed and that the reported flags mirror the emitted codes; C02_error_class and "
+        "C02_reject_only_documented characterise exactly when the interlock API rejects. The model is tied to the source by running "
+        "thousands of random histories per run on both and comparing outcome class, emitted codes and flags after every call.",
+        "Trusted: Lean kernel (propext, Classical.choice, Quot.sound), Lean compiler for the driver, the hand-written model "
+        "(tied by correspondence), the Python adapter/lexer; exact arithmetic on the dyadic grid; typeguard type errors not modelled.",
+        "DESIGN.md section 7 / C02",
+    ),
+    "C05": (
+        "Lean 4 theorems over the Builder model (every command validates before it commits: case analysis over all commands "
+        "and all failing branches) + differential correspondence comparing the complete observable state after every call, "
+        "rejected ones included",
+        "Proof: C05_reject_state (builder unchanged by any rejected call, all states, all commands), C05_reject_silent_partial "
+        "(nothing written, everywhere except one named call site), C05_future, C05_reject_noop; the excluded call site is a "
+        "recorded known finding with a Lean witness replayed on the implementation every run.",
+        "Trusted: as C02. Hooks are data-described (record / F limiter / extrusion); arbitrary user hooks are not modelled.",
+        "DESIGN.md section 7 / C05",
+    ),
+    "C06": (
+        "Lean 4 theorems over the Builder model for every builder value (no reachability hypothesis) + differential "
+        "correspondence on histories ending in a shutdown call",
+        "Proof: C06_tool_off, C06_power_off, C06_coolant_off, C06_emergency hold for every state and bounds table: the call "
+        "succeeds, writes exactly M05 / M09 / M05 M09 comment M00|M30, and leaves the flags down; C06_emergency_safe.",
+        "Trusted: as C02.",
+        "DESIGN.md section 7 / C06",
+    ),
     "C17": (
         "Lean 4 theorems over a hand-written model of _readline_socket/_readline_buf (induction over the event script "
         "and over the number of calls) + differential correspondence against the real Device on scripted sockets",
